@@ -87,6 +87,10 @@ type getSSEConnection struct {
 	// Prevent concurrent write conflicts
 	writeLock sync.Mutex
 
+	// closed is set (under writeLock) when the handler that owns writer returns; the
+	// http.ResponseWriter must not be used afterwards.
+	closed bool
+
 	// Event ID generator, reuses existing sseResponder
 	sseResponder *sseResponder
 }
@@ -663,6 +667,12 @@ func (h *httpServerHandler) handleGet(ctx context.Context, w http.ResponseWriter
 	<-connCtx.Done()
 	verifYield("get.E")
 
+	// Wait for a writer that is in the middle of an event and refuse later ones: the ResponseWriter
+	// must not be touched once this handler has returned (net/http reuses its buffers).
+	conn.writeLock.Lock()
+	conn.closed = true
+	conn.writeLock.Unlock()
+
 	// Clean up connection: remove only this stream's own registration. A newer stream of the same
 	// session may have replaced it (and cancelled this one); deleting by key would evict the successor.
 	h.getSSEConnectionsLock.Lock()
@@ -685,6 +695,9 @@ func (h *httpServerHandler) sendNotificationToGetSSE(sessionID string, notificat
 
 	conn.writeLock.Lock()
 	defer conn.writeLock.Unlock()
+	if conn.closed {
+		return fmt.Errorf("%w: %s (listening stream closed)", ErrSessionNotFound, sessionID)
+	}
 
 	// Use SSE responder to send notification
 	eventID, err := conn.sseResponder.sendNotification(conn.writer, notification)
@@ -793,6 +806,10 @@ func (h *httpServerHandler) SendRequest(ctx context.Context, sessionID string, r
 
 	// Send the request through GET SSE using the proper sendRequest method.
 	conn.writeLock.Lock()
+	if conn.closed {
+		conn.writeLock.Unlock()
+		return nil, fmt.Errorf("no GET SSE connection found for session: %s (listening stream closed)", sessionID)
+	}
 	eventID, err := conn.sseResponder.sendRequest(conn.writer, request)
 	if err != nil {
 		conn.writeLock.Unlock()
